@@ -48,6 +48,7 @@ if [ -z "$PHONY" ]; then
   [ -z "$STAMP" ] || redo-stamp < "$3"
   if [ -n "$LINKOUT" ]; then mv "$3" "$1.ldata"; ln -s "$(basename "$1").ldata" "$3"; fi
 fi
+if [ -n "$WATCH" ] && [ -e "$RV_TOP/$WATCH.during" ]; then mv "$RV_TOP/$WATCH.during" "$RV_TOP/$WATCH"; fi
 echo "E $NAME $$ 0" >&9
 '''
 
